@@ -1,2 +1,6 @@
+import Paroxy.Props.C04
+import Paroxy.Props.C05
+import Paroxy.Props.C06
+import Paroxy.Props.C07
 import Paroxy.Props.C08
 import Paroxy.Props.C16
